@@ -833,6 +833,11 @@ func shortOrigin(v ssa.Value) string {
 
 func nilExceptionFor(fn *ssa.Function, origin string, p ssa.Value) string {
 	name := fnKey(fn)
+	// the handler variable of Check (however it is built): the type switch covers every filter kind that
+	// survives configuration loading
+	if strings.HasSuffix(name, "ExtAuthZFilter).Check") && typeID(p.Type()) == idHandlerIface {
+		return "handler variable: the type switch covers every filter kind that survives configuration loading (C17.R3: overrides are replaced, the oneof is required; C08.R3 checks the arms)"
+	}
 	pd := descDepth(p, 1)
 	for _, e := range c15NilExceptions {
 		if strings.HasSuffix(name, e.fn) && (strings.Contains(origin, e.origin) || strings.HasPrefix(pd, e.origin)) {
